@@ -82,9 +82,11 @@ def rawSetDict (cfg : Cfg) (f : Forest) (m : Meta) (its : Items) (key : Key) (ve
     | none => f
   let isObj := isObjKind m.kind
   if ve.isMissing && !isObj then
+    -- (the slot still holds the detached old value at this point; erasing the key from the
+    -- original payload is the same thing)
     if hasKey its key then
-      .ok (addRoots (f1.mapAt m.id (fun _ xs => eraseKey key xs)) detached.toList, true)
-    else .ok (f1, false)
+      .ok (addRoots (f.mapAt m.id (fun _ xs => eraseKey key xs)) detached.toList, true)
+    else .ok (f, false)
   else
     let ve' := if ve.isMissing then VE.atom .none else ve       -- field default
     let r := evalVE cfg f1 (detached.bind Tree.id?) (some m.id) isObj m.part (m.path ++ [key]) ve'
@@ -452,7 +454,9 @@ def step (cfg : Cfg) (f : Forest) (notifyOn : Bool) : Op → Res
   | .dPop t k =>
     match f.find? t with
     | some (.node m its) =>
-      if hasKey its k then delItemDict cfg f notifyOn m its k true else ⟨f, .err .key⟩
+      if m.kind = .dict then
+        (if hasKey its k then delItemDict cfg f notifyOn m its k true else ⟨f, .err .key⟩)
+      else ⟨f, .skip⟩
     | _ => ⟨f, .skip⟩
   | .dPopItem t =>
     match f.find? t with
